@@ -64,7 +64,18 @@ LITS = {
 SPELL = {'folded': {'true': '(True&True)'}}
 
 
-def build(uses, lit, spell='plain'):
+def template(variant):
+    """variants of the skeleton: 'adv' = the class attributes carry the names the hoister hands out (`_A` at module level, `A` in a function), so an alias
+    used in that class body would be captured; 'fut2' = the annotations future import is the second of two separate future statements"""
+    t = TEMPLATE
+    if variant in ('adv', 'adv+fut2'):
+        t = t.replace('    attr = {P0}', '    _A = {P0}').replace('K.attr', 'K._A').replace('        y = {P10}', '        A = {P10}').replace('L.y', 'L.A')
+    if variant in ('fut2', 'adv+fut2'):
+        t = t.replace('from __future__ import annotations\n', 'from __future__ import division\nfrom __future__ import annotations\n')
+    return t
+
+
+def build(uses, lit, spell='plain', variant=None):
     text, value, fill = LITS[lit]
     plain = text
     text = SPELL.get(spell, {}).get(lit, text)
@@ -84,7 +95,7 @@ def build(uses, lit, spell='plain'):
             vals['P17'] = text if (i in uses and lit == 'str') else "'docfn doc'"
         else:
             vals['P%d' % i] = text if i in uses else fill(i)
-    return TEMPLATE.format(**vals)
+    return template(variant).format(**vals)
 
 
 def applicable(uses, lit):
@@ -192,7 +203,7 @@ def observe(job):
     import python_minifier
     uses = applicable(job['uses'], job['lit'])
     text, value, _f = LITS[job['lit']]
-    src = build(set(uses), job['lit'], job.get('spell', 'plain'))
+    src = build(set(uses), job['lit'], job.get('spell', 'plain'), job.get('variant'))
     try:
         compile(src, 'in', 'exec')
     except SyntaxError as e:
@@ -267,6 +278,8 @@ def observe(job):
                                    'rebound': stores > len(sites)})
         rec['doc_ok'] = bool(t.body and isinstance(t.body[0], ast.Expr) and isinstance(t.body[0].value, ast.Constant) and t.body[0].value.value == 'module doc')
         rec['future_ok'] = bool(len(t.body) > 1 and isinstance(t.body[1], ast.ImportFrom) and t.body[1].module == '__future__')
+        if job.get('variant') in ('fut2', 'adv+fut2') and not job['opts'].get('combine_imports', True):
+            rec['future_ok'] = rec['future_ok'] and isinstance(t.body[2], ast.ImportFrom) and t.body[2].module == '__future__'
         for sc in (2, 3, 4):   # class K, K.m, outer keep their docstrings first
             b = scopes[sc].body
             if not (isinstance(b[0], ast.Expr) and isinstance(b[0].value, ast.Constant) and isinstance(b[0].value.value, str) and b[0].value.value.endswith(' doc')):
